@@ -920,7 +920,11 @@ func (w *world) runCaseBlock(r *hx.Rng, res *hx.Result, h uint64, g []gtx, casto
 					}
 				}
 				if !ok && len(cur.holders(m.Acct)) == 1 {
-					res.Violate("C20/views-agree:mid-block-iterator-misses-dirty", fmt.Sprintf("after %s id %d carries account %d but GetMinerIdByAccount(account %d) = id %d", tag, m.I, m.Acct, m.Acct, cur.byAcct[m.Acct]), input)
+					key := "C20/views-agree:mid-block-by-account-wrong" // the iterator yields the miner: not the unflushed-write case
+					if indexOf(cur.iter[m.K], m.I) < 0 {
+						key = "C20/views-agree:mid-block-iterator-misses-dirty"
+					}
+					res.Violate(key, fmt.Sprintf("after %s id %d carries account %d but GetMinerIdByAccount(account %d) = id %d", tag, m.I, m.Acct, m.Acct, cur.byAcct[m.Acct]), input)
 				}
 			}
 		}
